@@ -62,6 +62,8 @@ def judge(r):
                 return 'DataOverflowError although version %s fits' % want
         else:
             v = enc.MICRO.get(case['version'], case['version'])
+            if v == -3 and level is not None:
+                return None      # M1 has no error correction level: with a requested level nothing admissible fits
             if len(parts) == 1 and not (v < 1 and (case.get('eci') or micro is False)):
                 bits = int(common.oracle(['spec_bits %d 0 %s' % (v, segs)])[0])
                 cap = gen.capacity(v, level if v != -3 else None) if (level or v == -3) else gen.capacity(v, 'L')
@@ -85,6 +87,7 @@ def cases(ctx):
             if ver:
                 c['version'] = ver
             out.append(c)
+    out += gen.multipart_eci_cases(rng, ctx.thorough)
     out += [enc.random_case(rng, max_len=rng.choice([30, 200, 1200])) for _ in range(2000 if ctx.thorough else 250)]
     return out
 
